@@ -2,9 +2,10 @@
 // global functions of math/rand and math/rand/v2 that the simulated code uses.
 //
 // A value is a pure function of (run seed, virtual now, call-site chain,
-// ordinal of the draw at that site and instant). Two goroutines woken at the
-// same virtual instant therefore get the same values whichever of them the Go
-// scheduler runs first, unlike a shared PRNG stream.
+// ordinal of the draw at that site and instant within the drawing goroutine).
+// Two goroutines woken at the same virtual instant therefore get the same
+// sequences whichever of them the Go scheduler runs first, unlike a shared PRNG
+// stream; the goroutine id is used only to count, never as an input.
 package simrand
 
 import (
@@ -18,7 +19,7 @@ var (
 	mu   sync.Mutex
 	seed uint64 = 1
 	cur  int64
-	ord  = map[uint64]uint64{}
+	ord  = map[[2]uint64]uint64{}
 	// Draws counts draws since the last Reset (evidence only).
 	draws uint64
 )
@@ -35,6 +36,19 @@ func Reset(s uint64) {
 
 // Draws returns the number of draws since Reset.
 func Draws() uint64 { mu.Lock(); defer mu.Unlock(); return draws }
+
+func goid() uint64 {
+	var buf [64]byte
+	n := runtime.Stack(buf[:], false)
+	var id uint64
+	for _, c := range buf[len("goroutine "):n] {
+		if c < '0' || c > '9' {
+			break
+		}
+		id = id*10 + uint64(c-'0')
+	}
+	return id
+}
 
 func mix(x uint64) uint64 {
 	x += 0x9e3779b97f4a7c15
@@ -63,8 +77,9 @@ func next() uint64 {
 		cur = now
 		clear(ord)
 	}
-	k := ord[site]
-	ord[site] = k + 1
+	key := [2]uint64{site, goid()}
+	k := ord[key]
+	ord[key] = k + 1
 	draws++
 	s := seed
 	mu.Unlock()
@@ -110,3 +125,13 @@ func Perm(n int) []int {
 
 // Seed is a no-op kept for source compatibility.
 func Seed(int64) {}
+
+// Key is a per-run pseudo-random but fixed ordering key for x: code whose result
+// order comes from Go map iteration is given a seeded, reproducible order by
+// sorting on it.
+func Key(x uint64) uint64 {
+	mu.Lock()
+	s := seed
+	mu.Unlock()
+	return mix(mix(s) ^ mix(x))
+}
